@@ -18,6 +18,7 @@ type Mutex struct {
 
 func (m *Mutex) Lock() {
 	if !vrt.Active() {
+		vrt.Yield("")
 		m.real.Lock()
 		return
 	}
@@ -57,6 +58,7 @@ type RWMutex struct {
 
 func (m *RWMutex) Lock() {
 	if !vrt.Active() {
+		vrt.Yield("")
 		m.real.Lock()
 		return
 	}
@@ -77,6 +79,7 @@ func (m *RWMutex) Unlock() {
 
 func (m *RWMutex) RLock() {
 	if !vrt.Active() {
+		vrt.Yield("")
 		m.real.RLock()
 		return
 	}
@@ -149,9 +152,17 @@ func (w *WaitGroup) Wait() {
 
 // Pool mirrors sync.Pool deterministically (LIFO) under control.
 type Pool struct {
-	New   func() any
-	real  sync.Pool
-	items []any
+	New        func() any
+	real       sync.Pool
+	items      []any
+	registered bool
+}
+
+func (p *Pool) register() {
+	if !p.registered {
+		p.registered = true
+		vrt.RegisterReset(func() { p.items = nil })
+	}
 }
 
 func (p *Pool) Get() any {
@@ -164,6 +175,7 @@ func (p *Pool) Get() any {
 		}
 		return nil
 	}
+	p.register()
 	if n := len(p.items); n > 0 {
 		x := p.items[n-1]
 		p.items = p.items[:n-1]
@@ -180,6 +192,7 @@ func (p *Pool) Put(x any) {
 		p.real.Put(x)
 		return
 	}
+	p.register()
 	p.items = append(p.items, x)
 }
 
